@@ -100,6 +100,12 @@ BAD = [
     ("config_bad_ns", lambda tx: PLSSDesc(tx, config="default_ns.x"), (DefaultNSError,), True),
     ("config_bad_ew", lambda tx: PLSSDesc(tx, config="default_ew=q"), (DefaultEWError,), True),
     ("config_dict_bad_ns", lambda tx: Config.from_dict({"default_ns": "x"}), (DefaultNSError,), True),
+    ("config_empty_ns", lambda tx: PLSSDesc(tx, config="default_ns."), (DefaultNSError,), True),
+    ("config_empty_ew", lambda tx: Tract(tx, config="n,default_ew="), (DefaultEWError,), True),
+    ("config_dict_empty_ew", lambda tx: Config.from_dict({"default_ew": ""}), (DefaultEWError,), True),
+    ("config_kwargs_empty_ns", lambda tx: Config.from_kwargs(default_ns=""), (DefaultNSError,), True),
+    ("config_dict_int_ns", lambda tx: Config.from_dict({"default_ns": 5}), (DefaultNSError,), True),
+    ("config_dict_bad_int", lambda tx: Config.from_dict({"qq_depth": "2"}), (ValueError,), True),
     ("config_dict_bad_bool", lambda tx: Config.from_dict({"clean_qq": "yes"}), (ValueError,), True),
     ("kw_bad_ns", lambda tx: PLSSDesc("154-R97W Sec 14: NE/4 " + tx).parse(default_ns="x"), (DefaultNSError,), False),
     ("kw_bad_ew", lambda tx: PLSSDesc("T154N-97 Sec 14: NE/4 " + tx).parse(default_ew="x"), (DefaultEWError,), False),
